@@ -47,9 +47,9 @@ def rel_scale (_ : Env) (r : List Msg) (k : Int) (_meta : Option Seq) : Except E
 /-- `RelativeSequence.transpose(transpose_by)` -/
 def rel_transpose (e : Env) (r : List Msg) (by_ : Int) : Except Err (List Msg × Bool) :=
   .ok (transposeRel e.noteLo e.noteHi (fun k => e.tk k by_) by_ r)
-/-- `AbsoluteSequence.quantise(step_sizes=None)` -/
+/-- `AbsoluteSequence.quantise(step_sizes=None)` (repaired for D41: `normalise_absolute()` first, `Model/QuantiseS.lean`) -/
 def abs_quantise (e : Env) (a : List Msg) (steps : Option (List Int)) : Except Err (List Msg × Unit) := do
-  let a' ← SCoda.quantise (steps.getD e.defSteps) a
+  let a' ← SCoda.quantiseS (steps.getD e.defSteps) a
   .ok (a', ())
 /-- `AbsoluteSequence.quantise_note_lengths(note_values=None, standard_length=PPQN, do_not_extend=False)` -/
 def abs_quantise_note_lengths (e : Env) (a : List Msg) (values : Option (List Int)) (stdLen : Int) (dne : Bool) :
